@@ -33,7 +33,7 @@ def set_engine(e):
 
 
 def is_sym(x):
-    return isinstance(x, (SymReal, SymBool, LogReal))
+    return isinstance(x, (SymReal, SymBool, LogReal, NegLogReal))
 
 
 def lift(x):
@@ -154,6 +154,19 @@ class SymBool:
 
     def __float__(self):
         return float(bool(self))
+
+    # numpy-scalar-like conveniences (np.bool_ has them; pylife calls them on results of comparisons)
+    def squeeze(self, *a, **kw):
+        return self
+
+    def item(self):
+        return self
+
+    def all(self, *a, **kw):
+        return self
+
+    def any(self, *a, **kw):
+        return self
 
     def __repr__(self):
         return "SymBool(%s)" % (self.e,)
@@ -700,6 +713,14 @@ class SymReal:
     def item(self):
         return self
 
+    def squeeze(self):
+        return self
+
+    def __getitem__(self, key):
+        a = np.empty((), dtype=object)
+        a[()] = self
+        return a[key]
+
     def log10(self):
         return engine().log10(self)
 
@@ -810,7 +831,7 @@ class LogReal:
         raise Unsupported("number ** LogReal")
 
     def __neg__(self):
-        raise Unsupported("negated LogReal")
+        return NegLogReal(self)
 
     def __pos__(self):
         return self
@@ -877,6 +898,11 @@ class LogReal:
     def log10(self):
         return SymReal(self.e)
 
+    def __getitem__(self, key):
+        a = np.empty((), dtype=object)
+        a[()] = self
+        return a[key]
+
     def sqrt(self):
         return LogReal(z3.simplify(self.e / 2))
 
@@ -897,6 +923,57 @@ class LogReal:
 
     def __repr__(self):
         return "L(10**(%s))" % (self.e,)
+
+
+class NegLogReal:
+    """-(10**e): only what pylife needs from a negated positive quantity (ordering, negation)"""
+    __slots__ = ("pos",)
+
+    def __init__(self, pos):
+        self.pos = pos
+
+    def __neg__(self):
+        return self.pos
+
+    def _cmp(self, o, op):
+        if isinstance(o, NegLogReal):
+            # -a <op> -b   <=>   b <op> a
+            return o.pos._cmp(self.pos, op)
+        if isinstance(o, (int, float, np.integer, np.floating)) and not isinstance(o, (bool, np.bool_)):
+            o = float(o)
+            if math.isnan(o):
+                return op is NE
+            if o >= 0:
+                return op in (LT, LE, NE)
+            r = self.pos._cmp(-o, {LT: GT, LE: GE, GT: LT, GE: LE, EQ: EQ, NE: NE}[op])
+            return r
+        if isinstance(o, LogReal):
+            return op in (LT, LE, NE)
+        return NotImplemented
+
+    def __lt__(self, o):
+        return self._cmp(o, LT)
+
+    def __le__(self, o):
+        return self._cmp(o, LE)
+
+    def __gt__(self, o):
+        return self._cmp(o, GT)
+
+    def __ge__(self, o):
+        return self._cmp(o, GE)
+
+    def __eq__(self, o):
+        return self._cmp(o, EQ)
+
+    def __ne__(self, o):
+        return self._cmp(o, NE)
+
+    def __hash__(self):
+        raise TypeError("symbolic value hashed")
+
+    def __repr__(self):
+        return "-%r" % (self.pos,)
 
 
 # ---------------------------------------------------------------------------
